@@ -193,7 +193,7 @@ def _clone(expr):
     return ast.parse(ast.unparse(expr), mode='eval').body
 
 
-def expand_locals(root, expr, before=None, depth=3):
+def expand_locals(root, expr, before=None, depth=3, keep=()):
     """Substitute local names that have exactly one plain definition (before
     a line, if given) by that definition, up to `depth` levels.  Loop
     variables and parameters stay symbolic."""
@@ -204,7 +204,7 @@ def expand_locals(root, expr, before=None, depth=3):
             self.changed = False
 
         def visit_Name(self, n):
-            if isinstance(n.ctx, ast.Load):
+            if isinstance(n.ctx, ast.Load) and n.id not in keep:
                 ds = [a for a in assigns_of(root, n.id)
                       if before is None or a.lineno <= before]
                 if len(ds) == 1 and isinstance(ds[0], ast.Assign) \
